@@ -287,3 +287,16 @@ PROPS["C14"] = {
     "thorough": {"configs": ["default", "arduino", "g1_16_4_1"], "cases": 800000, "floor_evaluations": 1500000},
     "regress": ["doc_set_char_array", "linked_string_as_double"],
 }
+
+PROPS["C05"] = {
+    "title": "Allocation failure is reported and never corrupts the document",
+    "src": "c05.cpp",
+    "level": "fault_enumeration",
+    "technique": "fault enumeration over allocator calls: each generated scenario (model-based API history or deserialization input) is first run fault-free to count its N fallible calls, then re-run from the recorded choice sequence under every single-failure position, every fail-from-k schedule and 8 random multi-failure subsets; judged by a failure-shape oracle (model state, or reported failure + overflowed() + nothing changed outside the modified path + internal invariants), then clear/reuse/destruction checks on an instrumented allocator",
+    "rule": "scenario = (2/3) a C04 history of 4-25 operations on 1-2 documents (strings incl. long ones, 64-bit numbers and doubles needing extension slots, copies between documents, deserialization into values, document-level copies) or (1/3) a valid JSON / MessagePack input with or without a filter deserialized into a non-empty document; for a scenario with N fallible calls: fail-nth(k) and fail-from(k) for every k in 1..N (64 sampled positions when N > 64, labelled) plus 8 random subsets; non-trivial = a fault run in which the allocator actually refused a call while the target document was non-empty (histories) / refused a call (inputs); distinct = hash of (scenario, plan); evaluations counts scenarios, executions counts fault runs",
+    "level_text": "Complete enumeration of single-failure and fail-from positions per generated scenario (fault_enumeration), over randomly generated scenarios. After every operation the document must equal the model's next state, or be a well-formed failure shape: the operation reported (false / unbound / NoMemory), overflowed() is true, every value outside the path being modified is unchanged, pools/free list/strings consistent (leaked slots allowed). A refused call always sets overflowed(). At the end clear() returns every block and resets overflowed(), the documents work again once allocation succeeds, destruction leaves no block and no foreign release.",
+    "level_note": "After a failure-shape outcome the model is re-synchronised with the observed document and all references are given up, so the history continues under the plan. While overflowed() is still set (sticky) operations that report failure are judged by the failure shape even if memory was available. Shrinking reallocations never fail (the property speaks of growing reallocations).",
+    "quick": {"configs": ["default", "g1_4_1_1"], "cases": 3000, "floor_evaluations": 5000, "floor_nontrivial": 20000,
+              "require_labels": ["history-scenario", "deserialization-scenario", "failure-shape-outcomes"]},
+    "thorough": {"configs": ["default", "g1_4_1_1", "g1_16_4_1", "g2_2_1_4"], "cases": 200000, "floor_evaluations": 400000},
+}
